@@ -113,7 +113,7 @@ func verifRootDepth(t *Collection, r *rootNodeLoc, withTree bool, depth int) Ver
 		LockAddr:  uintptr(unsafe.Pointer(t.rootLock)),
 	}
 	v.Superseded = r.superseded
-	if r.chainedRootNodeLoc != nil && depth < 64 {
+	if r.chainedRootNodeLoc != nil && depth < 1<<20 {
 		c := verifRootDepth(t, r.chainedRootNodeLoc, false, depth+1)
 		v.Chain = &c
 	}
